@@ -1,5 +1,4 @@
-import IoraModel.Lemmas.AssetsRoots
-import IoraModel.Lemmas.AssetsFuel
+import IoraModel.Lemmas.AssetsHistory
 /-!
 # C20 — Static asset and template lookup never escapes its root directory  (partial: see the end of this header)
 
@@ -10,6 +9,14 @@ in the regenerated `Gen/Assets.lean`.
 `lexicallyNormal`, `lexRelFirst` (libstdc++) and `readFile`'s `open(O_NOFOLLOW)` are MODEL functions over the file-system model
 `Fs`.  Everything below is proved about these model functions for EVERY `Fs`, name and history; that they behave like the real
 libstdc++/glibc/Linux ones is what the correspondence harness checks on generated directory trees.
+
+*Concurrency of the environment.*  One lookup issues several path-taking system calls; the model gives each of them its own
+file-system snapshot (`Snaps`: `status(candidate)`, `realpath(candidate)`, `is_regular_file(resolved)`, `open(resolved)`,
+`is_regular_file(resolved.gz)`, `open(resolved.gz)`).  NOT split further (assumed atomic, stated here once): the prefix loop +
+`realpath(prefix)` that `weakly_canonical` runs when the candidate does NOT exist, and the inside of one `realpath`/`open`.
+What the environment may do between the snapshots is `LeafOnly` (A4); what it must not do — make a NEW intermediate symbolic
+link appear — is shown to break containment by the witness `A4_residual_intermediate_link` (the code documents this residual:
+"intermediate-component swaps would need openat() chains").
 -/
 namespace Iora.C20
 open Iora Iora.Assets
@@ -82,22 +89,84 @@ theorem A4_open_nofollow (fs : Fs) (L : Loc) (d : Bytes) (hL : LocOK L) (hpar : 
 theorem Model_walk_total (fs : Fs) (fol : Bool) (p : Bytes) : kwalk fs fol p ≠ .error .EFUEL :=
   kwalk_never_efuel fs fol p
 
-/-! ## A3 — containment, one lookup, file system at rest -/
+/-! ## A3 — containment, one lookup, file system at rest: the bytes of THE NAMED file -/
 
-/-- **A3 (static, filesystem mode).** In EVERY file system, for EVERY name: if `getStatic` returns a blob (cache empty or
-per-request mode: nothing served from memory), its bytes — and the bytes of the gzip variant — are the content of a regular
-file whose location has the static root as a PROPER component-wise prefix. -/
+/-- the blob is the content of the regular file the request names (`realpath(<root>/<name>)`), which lies strictly inside the root;
+its gzip bytes are the content of the regular file `<that file>.gz` next to it -/
+def NamedFile (fs : Fs) (root : Bytes) (bn : List Name) (name : Bytes) (b : Blob) : Prop :=
+  ∃ last up, kwalk fs true (pathAppend root name) = .ok (last :: up, .file b.bytes) ∧
+    bn <+: (last :: up).reverse ∧ (last :: up).reverse ≠ bn ∧
+    ∀ g, b.gz = some g → fs.get ((last ++ Gen.Assets.gzSuffix) :: up) = some (.file g)
+
+theorem NamedFile.inside {fs root bn name b} (hroot : RootOK root bn) (hn : lexicallyRejected name = false)
+    (h : NamedFile fs root bn name b) : BlobGood (Inside fs bn) b := by
+  obtain ⟨last, up, hk, hpre, hne, hgz⟩ := h
+  have ha := isAbs_candidate root name hroot.ne hn hroot.abs
+  have h0 := no_nul_candidate root name hroot.ne hn hroot.no_nul
+  have hg := (kwalk_abs_ok fs true _ h0 ha _ _ hk).1
+  refine ⟨⟨_, hg, hpre, hne⟩, ?_⟩
+  intro g hg'
+  have hp : bn <+: up.reverse := prefix_of_prefix_snoc_ne bn up.reverse last (by simpa using hpre) (by simpa using hne)
+  refine ⟨_, hgz g hg', ?_, ?_⟩
+  · simp only [List.reverse_cons]
+    exact List.IsPrefix.trans hp (List.prefix_append _ _)
+  · intro e
+    have h1 := hp.length_le
+    have h2 := congrArg List.length e
+    simp at h1 h2
+    omega
+
+/-- **A3 (static, filesystem mode).** In EVERY file system, for EVERY name: if `getStatic` returns a blob (cache empty or per-request
+mode: nothing served from memory), its bytes are the content of THE regular file the request names — the object at
+`realpath(<static root>/<name>)` — whose location has the static root as a PROPER component-wise prefix; the gzip bytes are the
+content of the regular file `<that file>.gz`. -/
 theorem A3_static (fs : Fs) (st : FsState) (bn : List Name) (path : Bytes) (b : Blob) (a' : Assets)
     (hroot : RootOK st.staticsRoot bn) (hcache : st.staticCache = [])
-    (h : getStatic fs (.filesystem st) path = (.found b, a')) : BlobGood (Inside fs bn) b := by
+    (h : getStatic fs (.filesystem st) path = (.found b, a')) :
+    lexicallyRejected path = false ∧ NamedFile fs st.staticsRoot bn path b := by
   unfold getStatic getStaticAt at h
   by_cases hn : lexicallyRejected path = true
   · simp [hn] at h
-  · simp only [hn, Bool.false_eq_true, ↓reduceIte] at h
-    have hg := getStaticFilesystemAt_good wcMissingNoFile (Inside fs bn) fs fs st path bn hroot (dirsPreserved_refl fs)
-      (by simpa using hn) (fun d hd => hd) (by rw [hcache]; intro k e hm; simp at hm)
-    injection h with h1 _
-    exact (hg.1 b h1).1
+  have hn' : lexicallyRejected path = false := by simpa using hn
+  refine ⟨hn', ?_⟩
+  simp only [hn, Bool.false_eq_true, ↓reduceIte] at h
+  injection h with h1 _
+  unfold getStaticFilesystemAt at h1
+  simp only [hcache, List.lookup_nil, Snaps.const] at h1
+  split at h1
+  · cases h1
+  rename_i resolved hw
+  split at h1
+  · cases h1
+  rename_i hc
+  split at h1
+  · cases h1
+  rename_i hr
+  simp only [Bool.not_eq_true] at hc hr
+  simp only [Bool.not_eq_eq_eq_not] at hc hr
+  obtain ⟨last, up, d0, hk, hres, hg, hpre, hne, hmain, hgz⟩ :=
+    resolve_named_const fs st.staticsRoot bn hroot path resolved hn' hw (by simpa using hc) (by simpa using hr)
+  have key : ∀ e, buildEntryAt fs fs fs resolved = some e → NamedFile fs st.staticsRoot bn path (blobOf e path) := by
+    intro e he
+    unfold buildEntryAt at he
+    split at he
+    · cases he
+    rename_i d hd
+    injection he with he; subst he
+    refine ⟨last, up, ?_, hpre, hne, ?_⟩
+    · simp only [blobOf]; rw [hmain d hd]; exact hk
+    · intro g hg'
+      simp only [blobOf] at hg'
+      split at hg'
+      · exact hgz g hg'
+      · cases hg'
+  split at h1
+  · split at h1
+    · cases h1
+    · rename_i e he; injection h1 with h1; subst h1; exact key e he
+  · split at h1
+    · cases h1
+    · rename_i e he; injection h1 with h1; subst h1; exact key e he
 
 /-- non-vacuity: in `exFs` the name `a` is served with the bytes of `/s/a`; the inside link `in` is served; the escaping link
 `l` is rejected -/
@@ -105,63 +174,162 @@ example : ∃ b a', getStatic exFs (.filesystem exSt) [97] = (.found b, a') ∧ 
 example : (getStatic exFs (.filesystem exSt) [105]).1 = .found ⟨[7], Gen.Assets.mimeDefault, none⟩ ∧
     (getStatic exFs (.filesystem exSt) [108]).1 = .rejected := by decide
 
-/-- **A3 (template, filesystem mode).** -/
+/-- **A3 (template, filesystem mode).** The bytes are the content of the regular file `realpath(<template root>/<name>)`, strictly
+inside the template root. -/
 theorem A3_template (fs : Fs) (st : FsState) (bn : List Name) (name d : Bytes) (a' : Assets)
     (hroot : RootOK st.templatesRoot bn) (hcache : st.templateCache = [])
-    (h : getTemplate fs (.filesystem st) name = (some d, a')) : Inside fs bn d := by
+    (h : getTemplate fs (.filesystem st) name = (some d, a')) :
+    ∃ last up, kwalk fs true (pathAppend st.templatesRoot name) = .ok (last :: up, .file d) ∧
+      bn <+: (last :: up).reverse ∧ (last :: up).reverse ≠ bn := by
   unfold getTemplate getTemplateAt at h
   by_cases hn : lexicallyRejected name = true
   · simp [hn] at h
-  · simp only [hn, Bool.false_eq_true, ↓reduceIte] at h
-    have hg := getTemplateFilesystemAt_good wcMissingNoFile (Inside fs bn) fs fs st name bn hroot (dirsPreserved_refl fs)
-      (by simpa using hn) (fun d hd => hd) (by rw [hcache]; intro k e hm; simp at hm)
-    injection h with h1 _
-    exact (hg.1 d h1).1
+  have hn' : lexicallyRejected name = false := by simpa using hn
+  simp only [hn, Bool.false_eq_true, ↓reduceIte] at h
+  injection h with h1 _
+  unfold getTemplateFilesystemAt at h1
+  simp only [hcache, List.lookup_nil, Snaps.const] at h1
+  split at h1
+  · cases h1
+  rename_i resolved hw
+  split at h1
+  · cases h1
+  rename_i hc
+  split at h1
+  · cases h1
+  rename_i hr
+  simp only [Bool.not_eq_true] at hc hr
+  simp only [Bool.not_eq_eq_eq_not] at hc hr
+  obtain ⟨last, up, d0, hk, hres, hg, hpre, hne, hmain, _⟩ :=
+    resolve_named_const fs st.templatesRoot bn hroot name resolved hn' hw (by simpa using hc) (by simpa using hr)
+  split at h1
+  · cases h1
+  · rename_i d' hd
+    injection h1 with h1; subst h1
+    exact ⟨last, up, by rw [hmain d' hd]; exact hk, hpre, hne⟩
 
-/-- **A3 (embedded mode, with the EXTERNAL_DIR fallback).** Bytes come from the registry entry of exactly this path, or — only
-for a path of the externalised set — from a regular file strictly inside EXTERNAL_DIR (absolute, NUL-free, `..`-free,
-resolving to the canonical directory `bn`). -/
-theorem A3_embedded (fsR fsO : Fs) (r : Registry) (path : Bytes) (b : Blob) (a' : Assets)
-    (hd : DirsPreserved fsR fsO) (h : getStaticAt fsR fsO (.embedded r) path = (.found b, a')) :
+/-- **A3 (embedded mode, with the EXTERNAL_DIR fallback), every interleaving point.** Bytes come from the registry entry of exactly
+this path, or — only for a path of the externalised set — from a regular file strictly inside EXTERNAL_DIR (absolute, NUL-free,
+`..`-free, resolving to the canonical directory `bn`, a directory when the file is opened; environment `LeafOnly`). -/
+theorem A3_embedded (sn : Snaps) (r : Registry) (path : Bytes) (b : Blob) (a' : Assets)
+    (h : getStaticAt sn (.embedded r) path = (.found b, a')) :
     (∃ a ∈ r.statics, a.path = path ∧ b.bytes = a.bytes ∧ b.gz = a.gz) ∨
     (isExternalPath r path = true ∧
       ∀ bn, isAbs r.externalDir = true → (0 : UInt8) ∉ r.externalDir → dotdot ∉ comps r.externalDir →
-        weaklyCanonical fsR r.externalDir = .ok (renderAbs bn) → (∀ n ∈ bn, Plain n) →
-        fsO.get bn.reverse = some .dir → BlobGood (Inside fsO bn) b) := by
+        weaklyCanonical sn.s r.externalDir = .ok (renderAbs bn) → (∀ n ∈ bn, Plain n) →
+        LeafOnly sn (pathAppend r.externalDir path) bn → sn.o.get bn.reverse = some .dir → BlobInside sn bn b) := by
   unfold getStaticAt at h
   by_cases hn : lexicallyRejected path = true
   · simp [hn] at h
   · simp only [hn, Bool.false_eq_true, ↓reduceIte] at h
     injection h with h1 _
-    exact getStaticEmbeddedAt_good wcMissingNoFile fsR fsO r path b (by simpa using hn) hd h1
+    exact getStaticEmbeddedAt_good sn r path b (by simpa using hn) h1
 
-/-! ## A4 — the leaf swap: schedule {resolve, swap, open} -/
+/-! ## A4 — the environment acts WHILE the lookup runs: every interleaving point -/
 
-/-- **A4.** Resolution, containment test and regular-file test run in `fsR`; before the `open` the environment changes the file
-system to ANY `fsO` in which the directories of `fsR` are still directories (the file named by the final component replaced by
-a symbolic link to anywhere, links re-targeted, files created/removed, the `.gz` sibling swapped …).  Bytes that are still
-returned are the content of a regular file strictly inside the root IN `fsO`: `open(O_NOFOLLOW)` refuses a swapped-in link. -/
-theorem A4_leaf_swap (fsR fsO : Fs) (st : FsState) (bn : List Name) (path : Bytes) (b : Blob) (a' : Assets)
-    (hroot : RootOK st.staticsRoot bn) (hcache : st.staticCache = []) (hd : DirsPreserved fsR fsO)
-    (h : getStaticAt fsR fsO (.filesystem st) path = (.found b, a')) : BlobGood (Inside fsO bn) b := by
+/-- **A4.** Every path-taking system call of the lookup sees its own file-system snapshot (`sn`); between them the environment does
+anything `LeafOnly` allows — in particular it replaces the file named by the final path component (or its `.gz` sibling) by a
+symbolic link to anywhere, at ANY of the points: before `realpath`, between `realpath`/containment and the regular-file test,
+between that test and the `open`, before the sibling's test, before the sibling's `open`.  Bytes that are still returned are the
+content of a regular file strictly inside the root IN THE SNAPSHOT OF THE OPEN THAT READ THEM. -/
+theorem A4_every_point (sn : Snaps) (st : FsState) (bn : List Name) (path : Bytes) (b : Blob) (a' : Assets)
+    (hroot : RootOK st.staticsRoot bn) (hcache : st.staticCache = [])
+    (hL : LeafOnly sn (pathAppend st.staticsRoot path) bn)
+    (h : getStaticAt sn (.filesystem st) path = (.found b, a')) : BlobInside sn bn b := by
   unfold getStaticAt at h
   by_cases hn : lexicallyRejected path = true
   · simp [hn] at h
   · simp only [hn, Bool.false_eq_true, ↓reduceIte] at h
-    have hg := getStaticFilesystemAt_good wcMissingNoFile (Inside fsO bn) fsR fsO st path bn hroot hd
-      (by simpa using hn) (fun d hd => hd) (by rw [hcache]; intro k e hm; simp at hm)
     injection h with h1 _
-    exact (hg.1 b h1).1
+    -- two instances of the lookup theorem: one predicate for the bytes, one for the gzip bytes
+    have hg := getStaticFilesystemAt_good (fun d => Inside sn.o bn d ∨ Inside sn.z bn d) sn st path bn hroot hL
+      (by simpa using hn) (fun d hd => Or.inl hd) (fun g hg => Or.inr hg) (by rw [hcache]; intro k e hm; simp at hm)
+    -- the precise attribution (bytes from `o`, gzip from `z`) is read off the definition
+    unfold getStaticFilesystemAt at h1
+    simp only [hcache, List.lookup_nil] at h1
+    split at h1
+    · cases h1
+    rename_i resolved hw
+    split at h1
+    · cases h1
+    rename_i hc
+    split at h1
+    · cases h1
+    simp only [Bool.not_eq_true] at hc
+    simp only [Bool.not_eq_eq_eq_not] at hc
+    have key : ∀ e, buildEntryAt sn.o sn.g sn.z resolved = some e → BlobInside sn bn (blobOf e path) := by
+      intro e he
+      unfold buildEntryAt at he
+      split at he
+      · cases he
+      rename_i d hd
+      injection he with he; subst he
+      obtain ⟨h1', h2'⟩ := resolve_phases_inside sn st.staticsRoot bn hroot path resolved (by simpa using hn) hw
+        (by simpa using hc) hL d hd
+      refine ⟨h1', ?_⟩
+      intro g hg'
+      simp only [blobOf] at hg'
+      split at hg'
+      · exact h2' g hg'
+      · cases hg'
+    split at h1
+    · split at h1
+      · cases h1
+      · rename_i e he; injection h1 with h1; subst h1; exact key e he
+    · split at h1
+      · cases h1
+      · rename_i e he; injection h1 with h1; subst h1; exact key e he
 
-/-- non-vacuity: swapping the leaf `/s/a` for a link to the secret preserves directories; the lookup whose open sees the swapped
-world returns nothing (and the unswapped one returns `[7]`) -/
-example : DirsPreserved exFs exSwap ∧ (getStaticAt exFs exSwap (.filesystem exSt) [97]).1 = .notFound ∧
-    (getStaticAt exFs exFs (.filesystem exSt) [97]).1 = .found ⟨[7], Gen.Assets.mimeDefault, none⟩ :=
-  ⟨set_preserves_dirs _ _ _ (by decide), by decide, by decide⟩
+/-- **A4 (the concrete swap).** Replacing the non-directory at ANY location `X` by another non-directory (a regular file by a
+symbolic link to anywhere, say) just before ANY of the five points is an admissible environment — provided that, in the case
+where the request did not exist at resolution time, `X` is the leaf of the resolved path or of its `.gz` sibling and the root is a
+directory.  (If the request exists at resolution time there is no condition on `X` at all.) -/
+theorem A4_leaf_swap_admissible (fs : Fs) (X : Loc) (e : Entry) (pt : Point) (p : Bytes) (bn : List Name)
+    (h1 : fs.get X ≠ some .dir) (h2 : e ≠ .dir)
+    (hm : status fs p = .notFound → ∀ r, weaklyCanonical fs p = .ok r →
+      X ∈ leafLocs r ∧ fs.get bn.reverse = some .dir ∧ (fs.set X e).get bn.reverse = some .dir) :
+    LeafOnly (Snaps.switchAt fs (fs.set X e) pt) p bn := by
+  have hd := set_preserves_dirs fs X e h1
+  cases pt <;>
+  · refine ⟨?_, ?_, ?_⟩
+    · first | exact dirsPreserved_refl _ | exact hd
+    · first | exact dirsPreserved_refl _ | exact hd
+    · intro hs r hw d _
+      obtain ⟨hX, hr1, hr2⟩ := hm hs r hw
+      refine ⟨?_, ?_, ?_⟩
+      · first | exact agreeOff_refl _ _ | exact set_agreeOff fs X e _ hX h1 h2
+      · first | exact agreeOff_refl _ _ | exact set_agreeOff fs X e _ hX h1 h2
+      · first | exact hr1 | exact hr2
+
+/-- non-vacuity and the five points at work: swapping the leaf `/s/a` for a link to the secret just before `realpath`, the
+regular-file test, the `open`, the sibling test or the sibling `open` never yields the secret `[9]`; at the last two points the
+main file was already read and `[7]` is served -/
+example : DirsPreserved exFs exSwap ∧
+    (getStaticAt (Snaps.switchAt exFs exSwap .C) (.filesystem exSt) [97]).1 = .rejected ∧
+    (getStaticAt (Snaps.switchAt exFs exSwap .R) (.filesystem exSt) [97]).1 = .notFound ∧
+    (getStaticAt (Snaps.switchAt exFs exSwap .O) (.filesystem exSt) [97]).1 = .notFound ∧
+    (getStaticAt (Snaps.switchAt exFs exSwap .G) (.filesystem exSt) [97]).1 = .found ⟨[7], Gen.Assets.mimeDefault, none⟩ ∧
+    (getStaticAt (Snaps.switchAt exFs exSwap .Z) (.filesystem exSt) [97]).1 = .found ⟨[7], Gen.Assets.mimeDefault, none⟩ :=
+  ⟨set_preserves_dirs _ _ _ (by decide), by decide, by decide, by decide, by decide, by decide⟩
 
 /-- the concrete leaf swap of the statement is an instance of `DirsPreserved` -/
 theorem A4_swap_is_dirs_preserving (fs : Fs) (loc : Loc) (e : Entry) (h : fs.get loc ≠ some .dir) :
     DirsPreserved fs (fs.set loc e) := set_preserves_dirs fs loc e h
+
+/-- the world after a NEW link `/s/new -> /o` appeared (nothing was replaced, every directory is still a directory) -/
+def exNewLink : Fs := exFs.set [[110, 101, 119], [115]] (.link [47, 111])
+
+/-- **What A4 does NOT cover, stated precisely (the code's documented residual).** A request for the NON-EXISTING path `new/x`:
+`weakly_canonical` returns `/s/new/x` (existing prefix made canonical + remaining names kept lexically), which is lexically inside
+the root; then the environment makes a new INTERMEDIATE symbolic link `/s/new -> /o` appear — a directory-preserving change that
+is not confined to the leaf — and the regular-file test and the `open` follow it: the secret `[9]` is returned.  `O_NOFOLLOW`
+guards only the final component. -/
+theorem A4_residual_intermediate_link :
+    DirsPreserved exFs exNewLink ∧
+    (getStaticAt (Snaps.switchAt exFs exNewLink .R) (.filesystem exSt) [110, 101, 119, 47, 120]).1
+      = .found ⟨[9], Gen.Assets.mimeDefault, none⟩ ∧
+    (getStatic exNewLink (.filesystem exSt) [110, 101, 119, 47, 120]).1 = .rejected :=
+  ⟨set_preserves_dirs _ _ _ (by decide), by decide, by decide⟩
 
 /-! ## A0 — the configured roots -/
 
@@ -179,23 +347,27 @@ example : (fromDirectory exFs [47] false).isSome = true := by decide
 /-! ## A5 — the caches, over every history -/
 
 /-- **A5 (every history).** Start from whatever `fromDirectory` returns (any file system, any spelling of the root).  For EVERY
-sequence of `getStatic` / `getTemplate` / `reload` / arbitrary environment changes between lookups / directory-preserving
-changes between the resolution and the open of a lookup: every blob and every template ever returned — fresh or from a cache —
-consists of bytes that were, at the open of some lookup of this history, the content of a regular file strictly inside the
-canonical static (resp. template) root.  In particular a cache entry is only ever created from such bytes. -/
+sequence of `getStatic` / `getTemplate` (each with one snapshot per system call, environment `LeafOnly` while it runs) / `reload` /
+arbitrary environment changes between lookups: every blob and every template ever returned — fresh or from a cache — consists of
+bytes that were, at an open of some lookup of this history, the content of a regular file strictly inside the canonical static
+(resp. template) root.  In particular a cache entry is only ever created from such bytes. -/
 theorem A5_history (fs0 : Fs) (root : Bytes) (per : Bool) (st : FsState) (ops : List Op) (hcwd : LocOK fs0.cwd)
-    (h : fromDirectory fs0 root per = some st) (hv : Valid ⟨fs0, .filesystem st, []⟩ ops) :
+    (h : fromDirectory fs0 root per = some st) :
     ∃ bnS bnT, RootOK st.staticsRoot bnS ∧ RootOK st.templatesRoot bnT ∧
-      ∀ o ∈ hrun ⟨fs0, .filesystem st, []⟩ ops, OutGood bnS bnT o := by
+      (Valid bnS bnT ops → ∀ o ∈ hrun ⟨fs0, .filesystem st, []⟩ ops, OutGood bnS bnT o) := by
   obtain ⟨bnS, bnT, hS, hT, hc1, hc2⟩ := fromDirectory_inv fs0 root per st hcwd h
-  refine ⟨bnS, bnT, hS, hT, history_good bnS bnT ops _ ⟨st, rfl, hS, hT, ?_, ?_⟩ hv⟩
+  refine ⟨bnS, bnT, hS, hT, fun hv => history_good bnS bnT ops _ ⟨st, rfl, hS, hT, ?_, ?_⟩ hv⟩
   · rw [hc1]; intro k e hm; simp at hm
   · rw [hc2]; intro k d hm; simp at hm
 
 /-- a valid history: look `a` up, the environment rewrites the file, look it up again, reload, look it up again -/
-def exOps : List Op := [.static [97] exFs, .env exFs2, .static [97] exFs2, .reload, .static [97] exFs2]
-example : Valid ⟨exFs, .filesystem exSt, []⟩ exOps :=
-  ⟨dirsPreserved_refl _, trivial, dirsPreserved_refl _, trivial, dirsPreserved_refl _, trivial⟩
+def exOps : List Op := [.static [97] (Snaps.const exFs), .env exFs2, .static [97] (Snaps.const exFs2), .reload,
+  .static [97] (Snaps.const exFs2)]
+example : Valid [[115]] [[116]] exOps := by
+  intro op hop
+  simp only [exOps, List.mem_cons, List.mem_nil_iff, or_false] at hop
+  rcases hop with rfl | rfl | rfl | rfl | rfl <;> simp only [OpOK] <;>
+    first | trivial | exact leafOnly_const _ _ _ (by decide) (by decide) (by decide)
 
 /-- **A5 (what the cache does NOT guarantee), stated precisely.** A cached entry outlives a change of the file: in the history
 `exOps` the second lookup returns the OLD bytes `[7]` although `/s/a` now holds `[8]`; only `reload()` makes the new bytes
@@ -204,14 +376,29 @@ theorem A5_cache_can_be_stale :
     (hrun ⟨exFs, .filesystem exSt, []⟩ exOps).map (fun o => match o.1 with | .static (.found b) => some b.bytes | _ => none)
       = [some [7], none, some [7], none, some [8]] ∧ exFs2.get [[97], [115]] = some (.file [8]) := by decide
 
-/-- **A5 (re-validation).** A cache hit is not a bypass: whenever a filesystem-mode static lookup returns a blob — also from the
-cache — the name, resolved in the CURRENT file system, names a regular file strictly inside the root.  (A name whose file was
+/-- **A5 (re-validation).** A cache hit is not a bypass: whenever a filesystem-mode static lookup in a file system at rest returns
+a blob — also from the cache — the name, resolved NOW, names a regular file strictly inside the root.  (A name whose file was
 replaced by an escaping link is refused even though its old bytes are still cached.) -/
-theorem A5_revalidated (fsR fsO : Fs) (st : FsState) (bn : List Name) (path : Bytes) (b : Blob)
-    (hroot : RootOK st.staticsRoot bn) (hd : DirsPreserved fsR fsO) (hn : lexicallyRejected path = false)
-    (h : (getStaticFilesystemAt fsR fsO st path).1 = .found b) : ∃ d0, Inside fsR bn d0 :=
-  ((getStaticFilesystemAt_good wcMissingNoFile (fun _ => True) fsR fsO st path bn hroot hd hn (fun _ _ => trivial)
-    (fun _ _ _ => ⟨trivial, fun _ _ => trivial⟩)).1 b h).2
+theorem A5_revalidated (fs : Fs) (st : FsState) (bn : List Name) (path : Bytes) (b : Blob)
+    (hroot : RootOK st.staticsRoot bn) (hn : lexicallyRejected path = false)
+    (h : (getStaticFilesystemAt (Snaps.const fs) st path).1 = .found b) :
+    ∃ last up d0, kwalk fs true (pathAppend st.staticsRoot path) = .ok (last :: up, .file d0) ∧
+      bn <+: (last :: up).reverse ∧ (last :: up).reverse ≠ bn := by
+  unfold getStaticFilesystemAt at h
+  simp only [Snaps.const] at h
+  split at h
+  · cases h
+  rename_i resolved hw
+  split at h
+  · cases h
+  rename_i hc
+  simp only [Bool.not_eq_true] at hc
+  simp only [Bool.not_eq_eq_eq_not] at hc
+  by_cases hr : isRegularFile fs resolved = true
+  case neg => simp [hr] at h
+  obtain ⟨last, up, d0, hk, _, _, hpre, hne, _, _⟩ :=
+    resolve_named_const fs st.staticsRoot bn hroot path resolved hn hw (by simpa using hc) (by simpa using hr)
+  exact ⟨last, up, d0, hk, hpre, hne⟩
 
 /-! ## Conformance of the regenerated facts with what the model and the proofs assume -/
 
@@ -232,6 +419,14 @@ theorem Gen_call_order :
       "is_regular_file", "buildEntry"] ∧
     Gen.Assets.buildEntryCalls = ["readFile", "is_regular_file", "readFile"] ∧
     Gen.Assets.fromDirectoryCalls = ["fs::canonical", "fs::is_directory", "weakly_canonical", "weakly_canonical"] := by decide
+/-- the lookups WITH their operands: which root is the containment base, what is canonicalised, what is tested and what is opened
+(`isContained(base, candidate)`, `weakly_canonical(base)`, `readFile(candidate)` … change this list and break the build) -/
+theorem Gen_skeleton :
+    Gen.Assets.getStaticFilesystemSkel = ["base = _fs->staticsRoot", "candidate = _fs->staticsRoot / fs::path(std::string(path))", "resolved = fs::weakly_canonical(candidate, ec)", "isContained(base, resolved)", "is_regular_file(resolved, ec)", "buildEntry(resolved)", "blobFromEntry(std::move(entry), path)", "key = path", "blobFromEntry(it->second, path)", "buildEntry(resolved)", "blobFromEntry(chosen, path)"] ∧
+    Gen.Assets.getTemplateFilesystemSkel = ["base = _fs->templatesRoot", "candidate = _fs->templatesRoot / fs::path(std::string(name))", "resolved = fs::weakly_canonical(candidate, ec)", "isContained(base, resolved)", "is_regular_file(resolved, ec)", "key = name", "readFile(resolved)"] ∧
+    Gen.Assets.getStaticEmbeddedSkel = ["findStatic(path)", "isExternalPath(path)", "externalDir = std::string(_registry->externalDir)", "base = fs::weakly_canonical(externalDir, ec)", "candidate = externalDir / fs::path(std::string(path))", "resolved = fs::weakly_canonical(candidate, ec)", "isContained(base, resolved)", "is_regular_file(resolved, ec)", "buildEntry(resolved)", "blobFromEntry(std::move(entry), path)"] ∧
+    Gen.Assets.buildEntrySkel = ["readFile(file)", "gz = file", "gz += \".gz\"", "is_regular_file(gz, ec)", "readFile(gz)"] ∧
+    Gen.Assets.isContainedSkel = ["rel = target.lexically_relative(base);", "return false;", "return false;", "return *it != std::filesystem::path(\"..\");"] := by decide
 /-- `static`, `templates`, `.gz` -/
 theorem Gen_roots : Gen.Assets.staticsSub = [115, 116, 97, 116, 105, 99] ∧ Gen.Assets.templatesSub = [116, 101, 109, 112, 108, 97, 116, 101, 115] ∧
     Gen.Assets.gzSuffix = [46, 103, 122] := by decide
